@@ -427,6 +427,33 @@ void vec_one(Ints const &c)
     is >> r;
     if (os.str() != expect || !is || !(r == d)) fail("math::dim|text|round-trip", "dim '" + expect + "' did not round-trip");
   }
+  // the same round trip with formatting flags set on BOTH streams (writer and reader agree): the
+  // components are written and read with the stream's own integer formatting. Non-negative
+  // components only: iostreams print a negative int in hex / oct as its unsigned bit pattern, which
+  // does not read back into an int whatever fcppt does.
+  {
+    bool nonneg = true;
+    for (std::size_t i = 0; i < N; ++i) nonneg = nonneg && comps[i] >= 0;
+    if (nonneg)
+    {
+      std::ios_base::fmtflags const variants[] = {std::ios_base::hex, std::ios_base::oct, std::ios_base::hex | std::ios_base::showbase, std::ios_base::oct | std::ios_base::showbase, std::ios_base::dec | std::ios_base::showpos, std::ios_base::hex | std::ios_base::uppercase};
+      char const *const names[] = {"hex", "oct", "hex|showbase", "oct|showbase", "dec|showpos", "hex|uppercase"};
+      for (std::size_t f = 0; f < 6; ++f)
+      {
+        std::ostringstream os;
+        os.setf(variants[f], std::ios_base::basefield | std::ios_base::showbase | std::ios_base::showpos | std::ios_base::uppercase);
+        os << v << ' ' << d;
+        std::istringstream is(os.str());
+        is.setf(variants[f], std::ios_base::basefield | std::ios_base::showbase | std::ios_base::showpos | std::ios_base::uppercase);
+        vec r{fcppt::no_init{}};
+        dim rd{fcppt::no_init{}};
+        for (std::size_t i = 0; i < N; ++i) { r.storage()[i] = 99; rd.storage()[i] = 99; }
+        is >> r >> rd;
+        if (!is || !(r == v) || !(rd == d))
+          fail("math::vector|text|round-trip-with-format-flags", "vector / dim '" + expect + "' written with the flags " + names[f] + " as '" + os.str() + "' did not read back from a stream with the same flags");
+      }
+    }
+  }
   // malformed text must set failbit
   for (std::string const &bad : {expect.substr(1), expect.substr(0, expect.size() - 1), std::string("[") + expect.substr(1), expect.substr(0, 2)})
   {
